@@ -78,9 +78,38 @@ def normalise(pieces):
     return out
 
 
+@native
+def re_multiline_token():
+    """text: tokens as the lexer's multiline rule accepts them (LF form), read as a str pattern"""
+    from sievelib.parser import Parser
+    pat = dict((k.decode(), v) for k, v in Parser.lrules)["multiline"]
+    root, info = rx.convert(pat.decode("latin-1"), 8)
+    return rx.lang(root)
+
+
+@native
+def newline_follows(pieces, value):
+    """the write(s) right after `value` begin with white space containing a newline (a text: block must end its line)"""
+    for i, p in enumerate(pieces):
+        if p is value:
+            rest = "".join(q for q in pieces[i + 1:i + 3] if isinstance(q, str))
+            j = 0
+            while j < len(rest) and rest[j] in " \t":
+                j += 1
+            return rest[j:j + 1] == "\n"
+    return False
+
+
+MULTI = []
+
+
 def sym_string_value(name):
     v = sym_str(name)
-    assume(in_re(v, re_string_token()))
+    if len(MULTI) > 0 and MULTI[0]:
+        assume(in_re(v, re_multiline_token()))
+        MULTI.append(v)
+    else:
+        assume(in_re(v, re_string_token()))
     return v
 
 
@@ -92,6 +121,8 @@ def h_tosieve(clsname, variant):
     S = frozen.COMMANDS[cmd.name]
     expected = [cmd.name]
     k = 0
+    del MULTI[:]
+    MULTI.append(variant == "multiline")
     if variant != "none":
         for t in S["tagged"]:
             tag = sorted(t["tags"].keys())[-1]
@@ -164,6 +195,8 @@ def h_tosieve(clsname, variant):
     cmd.tosieve(target=target)
     got = normalise(target.pieces)
     prove(separation_ok(target.pieces), "S.tokens-are-separated-by-white-space")
+    for mv in MULTI[1:]:
+        prove(newline_follows(target.pieces, mv), "S.multi-line-value-is-followed-by-a-newline")
     prove(len(got) == len(expected), "S.same-number-of-tokens")
     if len(got) != len(expected):
         note("got", len(got), "expected", len(expected))
